@@ -97,7 +97,7 @@ def gen_plan(seed, tier):
       elif st["stype"] in ("flow", "aggregate"):
         st["table"] = r.pick([0xff, 0, 0, 1, 5])
         # filters: entries the request's match subsumes, that output to port
-        st["sm"] = r.pick([0, 0, 0, 1, 2, 3, 4, 5])
+        st["sm"] = r.pick([0, 0, 0, 1, 2, 3, 4, 5, 6, 6])
         st["sout"] = r.wpick([(5, W.OFPP_NONE), (3, r.randint(1, nports)),
                               (1, W.OFPP_FLOOD), (1, W.OFPP_CONTROLLER),
                               (1, W.OFPP_ALL), (1, W.OFPP_IN_PORT),
@@ -167,6 +167,9 @@ def _match_alphabet(i, nports):
     {"dl_type": 0x0800, "nw_proto": 17, "tp_dst": 53},
     {"dl_dst": F.mac(2)},
     {"dl_type": 0x0806, "nw_proto": 1},
+    # (only used as the match of a statistics request: the same /24 as #2,
+    # written with other bits below the prefix)
+    {"dl_type": 0x0800, "nw_src": F.ip(10, 0, 0, 77), "nw_src_bits": 8},
   ]
   return ms[i % len(ms)]
 
